@@ -97,8 +97,9 @@ def run(ctx):
     task_stats = client_task_family(ctx)
     server_stats = server_task_family(ctx)
     rtu_stats = rtu_server_task_family(ctx)
+    filter_stats = filtered_server_family(ctx)
     ctx.coverage.update({
-        'evaluations': len(lines) + task_stats.get('runs', 0) + server_stats.get('runs', 0) + rtu_stats.get('runs', 0),
+        'evaluations': len(lines) + task_stats.get('runs', 0) + server_stats.get('runs', 0) + rtu_stats.get('runs', 0) + filter_stats.get('runs', 0),
         'distinct_nontrivial': len(nontrivial),
         'rule': 'groups = one scripted stream (valid / mutated / badly framed frames or raw bytes, chunked) run at level nothing plus variants: highest level, a random level, and a level-change command injected at chunk positions (quick: 3 random positions; thorough: every position); non-trivial = the reference run produced wire output or handler calls; distinct by stream',
         'samples': [[groups[0][0][:160], groups[0][1][-1][0][:160], out[0][:200]]],
@@ -107,6 +108,7 @@ def run(ctx):
         'client_task_family': task_stats,
         'server_task_family': server_stats,
         'rtu_server_task_family': rtu_stats,
+        'filtered_server_family': filter_stats,
         'exhaustive': False,
     })
 
@@ -311,3 +313,45 @@ def rtu_server_task_family(ctx):
                               {'rtu_wait_cases': [[b, v]], 'reference': ob, 'got': ov})
     ctx.oblige('correspondence:rtu-server-task-level-changes-unobservable', diffs == 0, f'{diffs} differing scripts')
     return {'scripts': len(pairs), 'runs': len(lines)}
+
+
+def filtered_server_family(ctx):
+    """servers with a restrictive address filter (harness `filter_live` of C16: Rust API and C ABI, tcp / tls /
+    tls+authz): the same sequence of connections from matching and non-matching loopback sources without and
+    with set_decode_level calls between them (token @D): which connections are served must be identical."""
+    r = ctx.rng
+    if ctx.replay and 'filter_cases' in ctx.replay:
+        pairs = [tuple(x) for x in ctx.replay['filter_cases']]
+    elif ctx.replay:
+        return {}
+    else:
+        pairs = []
+        variants = [('rust', 'tcp', 'spawn'), ('rust', 'tcp', 'create'), ('rust', 'tls', 'spawn'), ('rust', 'tlsauthz', 'create'),
+                    ('ffi', 'tcp', '-'), ('ffi', 'tls', '-'), ('ffi', 'tlsauthz', '-')]
+        for api, variant, ctor in (variants if not ctx.quick() else r.sample(variants, 4)):
+            flt = r.choice(['exact=127.0.0.1', 'wild=127.0.0.*' if False else 'exact=127.0.0.3'])
+            ok = flt.split('=')[1]
+            other = '127.0.0.2'
+            peers = [r.choice([ok, other]) for _ in range(r.choice([3, 4]))]
+            if other not in peers:
+                peers[-1] = other
+            k = r.randrange(1, len(peers))
+            withd = peers[:k] + ['@D'] + peers[k:]
+            if r.random() < 0.5:
+                withd = withd[:1] + ['@D'] + withd[1:]
+            head = f'{api} {variant} {ctor} 127.0.0.1 {flt} '
+            pairs.append((head + ','.join(peers), head + ','.join(withd)))
+    lines = [x for p in pairs for x in p]
+    out = ctx.harness('filter_live', lines, args=[vlib.REPO], shards=4, timeout=900)
+    diffs = 0
+    for i, (b, v) in enumerate(pairs):
+        ob = out[2 * i]
+        ov = ','.join(x for x in out[2 * i + 1].split(',') if x != 'D')
+        if ob != ov:
+            diffs += 1
+            if diffs <= 2:
+                ctx.violation('filtered-server.level-change.observable-differs',
+                              f'which connections a filtered server serves differs once the decode level was changed: {v}',
+                              {'filter_cases': [[b, v]], 'reference': ob, 'got': out[2 * i + 1]})
+    ctx.oblige('correspondence:filtered-server-level-changes-unobservable', diffs == 0, f'{diffs} differing sequences')
+    return {'sequences': len(pairs), 'runs': len(lines)}
